@@ -7,6 +7,9 @@
 //!   shuffle_is_permutation, shuffle_reaches_all, shuffle_frequency
 //!   small_range_not_periodic — every range form of every type over value sets of <= 2^16 values, incl. the
 //!     full-width forms of the 8- and 16-bit types (+ low-bit machine diagnostic, evidence only)
+//! Every seed-quantified family (determinism, shuffle_*, small_range_not_periodic) runs on a dense interval
+//! [0, S) and on structured 64-bit seeds (single bits, small multipliers shifted to every position, masks,
+//! patterns, top of u64: streams.rs "seed alphabets").
 //! No oracle refers to the actual numbers of the stream.
 
 mod floats;
@@ -26,6 +29,75 @@ fn confirm(v: &Value) -> Result<(), String> {
         "small_range_not_periodic" => streams::confirm_period(v),
         other => Err(format!("unknown family {other:?} in replay file")),
     }
+}
+
+/// Which shuffle families have already reported their first failing case.
+#[derive(Default)]
+struct ShuffleReported {
+    not_a_permutation: bool,
+    reach: bool,
+    frequency: bool,
+}
+
+/// The verdicts of the shuffle families over one seed family: the first shuffle that is not a
+/// rearrangement, the first unreached rearrangement of a slice of length <= 6 and, if `frequency`, the first
+/// count outside [1/2, 2] x mean.  Returns the per-length evidence rows and the number of distinct
+/// rearrangements seen.
+fn shuffle_family(run: &mut Run, fam: &streams::SeedFamily, sh: &streams::ShuffleAcc, frequency: bool, reported: &mut ShuffleReported) -> (Vec<Value>, u64) {
+    let seeds = fam.len();
+    let tag = if fam.is_dense() { "" } else { "structured:" };
+    let replay = |family: &str, len: usize, perm: &[u8]| {
+        let mut v = fam.to_json();
+        v["family"] = json!(family);
+        v["len"] = json!(len);
+        v["perm"] = json!(perm);
+        v
+    };
+    if let (false, Some((_, len, seed, obs))) = (reported.not_a_permutation, &sh.first_bad) {
+        reported.not_a_permutation = true;
+        run.violation(Violation::new(
+            format!("shuffle_is_permutation:len={len}:seed={seed}"),
+            format!("shuffling 0..{len} with Rng::from_seed({seed}) {obs}; expected a rearrangement of the same elements"),
+            json!({"family": "shuffle_is_permutation", "len": len, "seed": seed.to_string()}),
+        ));
+    }
+    let mut rows = vec![];
+    let mut distinct_perms = 0u64;
+    for len in 2..=streams::MAX_COUNT_LEN {
+        let c = &sh.counts[len];
+        let total = c.len() as u64;
+        let mean = seeds as f64 / total as f64;
+        let reached = c.iter().filter(|&&x| x > 0).count() as u64;
+        distinct_perms += reached;
+        let (mn, mx) = (*c.iter().min().unwrap(), *c.iter().max().unwrap());
+        let out_of_band = c.iter().filter(|&&x| (x as f64) < mean / 2.0 || (x as f64) > mean * 2.0).count() as u64;
+        rows.push(json!({"len": len, "rearrangements": total, "reached": reached, "mean_count": mean, "min_count": mn, "max_count": mx, "counts_outside_half_to_double_mean": out_of_band}));
+        if !reported.reach {
+            if let Some(r) = c.iter().position(|&x| x == 0) {
+                reported.reach = true;
+                let perm = streams::perm_unrank(r, len);
+                let ps: String = perm.iter().map(|d| d.to_string()).collect();
+                run.violation(Violation::new(
+                    format!("shuffle_reaches_all:{tag}len={len}:perm={ps}"),
+                    format!("no seed in {} shuffles 0..{len} into {perm:?}: only {reached} of the {total} rearrangements are reached (mean count per rearrangement {mean:.1})", fam.describe()),
+                    replay("shuffle_reaches_all", len, &perm),
+                ));
+            }
+        }
+        if frequency && !reported.frequency {
+            if let Some(r) = c.iter().position(|&x| (x as f64) < mean / 2.0 || (x as f64) > mean * 2.0) {
+                reported.frequency = true;
+                let perm = streams::perm_unrank(r, len);
+                let ps: String = perm.iter().map(|d| d.to_string()).collect();
+                run.violation(Violation::new(
+                    format!("shuffle_frequency:{tag}len={len}:perm={ps}"),
+                    format!("{} of the seeds in {} shuffle 0..{len} into {perm:?}; the mean per rearrangement is {mean:.1}, allowed [{:.1}, {:.1}] ({out_of_band} of {total} counts are outside; min {mn}, max {mx})", c[r], fam.describe(), mean / 2.0, mean * 2.0),
+                    replay("shuffle_frequency", len, &perm),
+                ));
+            }
+        }
+    }
+    (rows, distinct_perms)
 }
 
 fn main() {
@@ -149,66 +221,42 @@ fn main() {
     run.sample(json!({"family": "determinism", "seed": "42", "stream_fingerprint": format!("{:?}", streams::determinism_one(42).map_err(|e| e.1)), "draws": streams::STREAM_LEN}));
 
     // ---------------------------------------------------------------- shuffle
-    let seeds = tier.pick(720 * 300u64, 720 * 30_000);
-    let sh = streams::run_shuffle(seeds);
-    run.cov("shuffle_seeds", seeds);
+    if let Err(e) = streams::seed_alphabet_selfcheck() {
+        run.machinery_failure(&e);
+    }
+    // the dense interval: rearrangement, reachability, near-equal frequency
+    let dense = streams::SeedFamily::Dense(tier.pick(720 * 300u64, 720 * 30_000));
+    let sh = streams::run_shuffle(&dense);
+    run.cov("shuffle_seeds", dense.len());
     run.cov("shuffles", sh.shuffles);
     run.cov("shuffle_not_a_permutation", sh.bad);
     evaluations += sh.shuffles;
-    if let Some((seed, len, obs)) = &sh.first_bad {
-        run.violation(Violation::new(
-            format!("shuffle_is_permutation:len={len}:seed={seed}"),
-            format!("shuffling 0..{len} with Rng::from_seed({seed}) {obs}; expected a rearrangement of the same elements"),
-            json!({"family": "shuffle_is_permutation", "len": len, "seed": seed.to_string()}),
-        ));
-    }
-    let mut reach_rows = vec![];
-    let (mut reach_done, mut freq_done) = (false, false);
-    let mut distinct_perms = 0u64;
-    for len in 2..=streams::MAX_COUNT_LEN {
-        let c = &sh.counts[len];
-        let total = c.len() as u64;
-        let mean = seeds as f64 / total as f64;
-        let reached = c.iter().filter(|&&x| x > 0).count() as u64;
-        distinct_perms += reached;
-        let (mn, mx) = (*c.iter().min().unwrap(), *c.iter().max().unwrap());
-        let out_of_band = c.iter().filter(|&&x| (x as f64) < mean / 2.0 || (x as f64) > mean * 2.0).count() as u64;
-        reach_rows.push(json!({"len": len, "rearrangements": total, "reached": reached, "mean_count": mean, "min_count": mn, "max_count": mx, "counts_outside_half_to_double_mean": out_of_band}));
-        if !reach_done {
-            if let Some(r) = c.iter().position(|&x| x == 0) {
-                reach_done = true;
-                let perm = streams::perm_unrank(r, len);
-                let ps: String = perm.iter().map(|d| d.to_string()).collect();
-                run.violation(Violation::new(
-                    format!("shuffle_reaches_all:len={len}:perm={ps}"),
-                    format!("no seed in [0,{seeds}) shuffles 0..{len} into {perm:?}: only {reached} of the {total} rearrangements are reached (mean count per rearrangement {mean:.1})"),
-                    json!({"family": "shuffle_reaches_all", "len": len, "seeds": seeds, "perm": perm}),
-                ));
-            }
-        }
-        if !freq_done {
-            if let Some(r) = c.iter().position(|&x| (x as f64) < mean / 2.0 || (x as f64) > mean * 2.0) {
-                freq_done = true;
-                let perm = streams::perm_unrank(r, len);
-                let ps: String = perm.iter().map(|d| d.to_string()).collect();
-                run.violation(Violation::new(
-                    format!("shuffle_frequency:len={len}:perm={ps}"),
-                    format!("{} of the seeds in [0,{seeds}) shuffle 0..{len} into {perm:?}; the mean per rearrangement is {mean:.1}, allowed [{:.1}, {:.1}] ({out_of_band} of {total} counts are outside; min {mn}, max {mx})", c[r], mean / 2.0, mean * 2.0),
-                    json!({"family": "shuffle_frequency", "len": len, "seeds": seeds, "perm": perm}),
-                ));
-            }
-        }
-    }
-    run.cov("shuffle_reach_and_frequency", Value::Array(reach_rows));
+    let mut reported = ShuffleReported::default();
+    let (rows, distinct_perms) = shuffle_family(&mut run, &dense, &sh, true, &mut reported);
+    run.cov("shuffle_reach_and_frequency", Value::Array(rows));
     run.cov("shuffle_distinct_rearrangements_seen_len_le_6", distinct_perms);
     run.cov("shuffle_non_identity_results_per_len", json!(sh.non_identity));
-    if sh.bad == 0 && (2..=streams::MAX_PERM_LEN).any(|l| sh.non_identity[l] == 0) {
-        run.machinery_failure("some slice length was never rearranged by any seed: the shuffle checks compare nothing");
+    // the structured family: rearrangement and reachability; its counts are evidence only (see assumptions)
+    let structured = streams::SeedFamily::structured(tier.pick(12, 14));
+    let shs = streams::run_shuffle(&structured);
+    run.cov("shuffle_structured_seeds", structured.len());
+    run.cov("shuffle_structured_seeds_with_32+_trailing_zeros", (0..structured.len()).filter(|&i| structured.get(i).trailing_zeros() >= 32).count() as u64);
+    run.cov("shuffles_structured", shs.shuffles);
+    run.cov("shuffle_structured_not_a_permutation", shs.bad);
+    evaluations += shs.shuffles;
+    let (rows, distinct_perms) = shuffle_family(&mut run, &structured, &shs, false, &mut reported);
+    run.cov("shuffle_structured_reach_and_counts_diagnostic", Value::Array(rows));
+    run.cov("shuffle_structured_distinct_rearrangements_seen_len_le_6", distinct_perms);
+    for acc in [&sh, &shs] {
+        if acc.bad == 0 && (2..=streams::MAX_PERM_LEN).any(|l| acc.non_identity[l] == 0) {
+            run.machinery_failure("some slice length was never rearranged by any seed: the shuffle checks compare nothing");
+        }
     }
     if streams::perm_rank(&[2, 0, 1]) != 4 || streams::perm_unrank(4, 3) != vec![2, 0, 1] || (0..720).any(|r| streams::perm_rank(&streams::perm_unrank(r, 6)) != r) || streams::is_permutation(&[0, 0, 2], 3) {
         run.machinery_failure("permutation rank self-check failed");
     }
     run.sample(json!({"family": "shuffle", "seed": "42", "len": 6, "observed": format!("{:?}", streams::shuffled(42, 6))}));
+    run.sample(json!({"family": "shuffle", "seed": (1u64 << 63).to_string(), "len": 6, "observed": format!("{:?}", streams::shuffled(1 << 63, 6))}));
 
     // ---------------------------------------------------------------- serial structure
     if let Err(e) = streams::period_detector_selftest() {
@@ -227,6 +275,9 @@ fn main() {
     run.cov("period_max_period_searched", budget.maxp as u64);
     run.cov("period_full_width_cases", pr.full_width_cases);
     run.cov("period_streams_searched_up_to_the_value_count", pr.long_streams);
+    run.cov("period_structured_seeds_plain_cases_other_cases", json!([pr.structured_seeds_full_core.0, pr.structured_seeds_full_core.1]));
+    run.cov("period_streams_from_structured_seeds", pr.structured_streams);
+    run.cov("period_streams_from_seeds_with_52+_trailing_zero_bits", pr.high_only_streams);
     run.cov("period_cases_and_streams_per_type_and_form", Value::Object(pr.per_type_form.iter().map(|(k, c, s)| (k.clone(), json!({"cases": c, "streams": s}))).collect()));
     run.cov("period_distinct_streams", pr.distinct_streams);
     run.cov("period_periodic_streams", pr.periodic);
@@ -246,8 +297,13 @@ fn main() {
     if pr.per_type_form.len() != 4 * 5 + 6 * 4 || pr.full_width_cases != 4 * 2 + 2 || pr.long_streams == 0 || pr.cases < 1000 {
         run.machinery_failure("the periodicity family did not visit every range form of every type (incl. the full-width forms of the 8- and 16-bit types)");
     }
+    // every case ran on at least the 64 single-bit seeds beyond its dense interval
+    if pr.structured_streams < pr.cases * 50 || pr.high_only_streams < pr.cases * 12 {
+        run.machinery_failure("the periodicity family did not run on the structured seeds");
+    }
     run.sample(json!({"family": "small_range_not_periodic", "seed": "0", "call": "next::<usize, _>(0..4)", "first_draws": format!("{:?}", streams::stream::<usize>(ints::Form::Range, 0, 4, 0, 16))}));
     run.sample(json!({"family": "small_range_not_periodic", "seed": "0", "call": "next::<u8, _>(..)", "first_draws": format!("{:?}", streams::stream::<u8>(ints::Form::Full, 0, 0, 0, 16))}));
+    run.sample(json!({"family": "small_range_not_periodic", "seed": (1u64 << 63).to_string(), "call": "next::<usize, _>(0..10)", "first_draws": format!("{:?}", streams::stream::<usize>(ints::Form::Range, 0, 10, 1 << 63, 16))}));
     run.cov("lowbit_machine_diagnostic", streams::lowbit_diagnostic());
 
     // ---------------------------------------------------------------- totals
@@ -256,13 +312,15 @@ fn main() {
     run.cov(
         "rule",
         "integer: every (start,end) of a..b, a..=b, ..b, ..=b, .. for i8/u8 (thorough: also every ..b, ..=b for i16/u16) and all pairs of boundary values + anchored boundary lengths (1,2,3,2^k,2^k+-1,MAX,full) for the wider types, each crossed with the raw alphabet R(len) (0..=2len, top of u64, neighbours of multiples of len near 2^8..2^64, powers of two, ceil(k*2^64/len)); float: all ordered pairs of a 20-value boundary grid x 2300 raw values; generator: all seeds of the stated sets. \
-         serial structure: for every integer type and every value-set size n in {2..16, 32, 64, 128, 255, 256} (16-bit types: also 2^9..2^15 and 65535) every range form denoting n values (a..a+n and a..=a+n-1 for a in {0, MIN, 1}, ..n, ..=n-1), and for the 8- and 16-bit types the full-width forms (.., MIN..=MAX, ..=MAX): the stream of consecutive draws from every seed of the case has no period p <= max(n, tier base), searched in a stream of at least 3 periods (seeds [0,S) per case, S stated in period_seeds_per_case_plain_forms_long for plain next(0..len) on usize / the other cases / streams longer than the tier base). \
+         seeds: every seed-quantified family runs on a dense interval [0,S) and on structured 64-bit seeds - every single bit 1<<k, 3/5/42/0xab/0xabc shifted to every position, only-low-bits masks 2^k-1, only-high-bits masks !0<<k, 2^k+1, all ones but one bit, the top bit plus one bit, every top byte b<<56, u64::MAX-j (j<=16), alternating and half-word patterns (the core = single bits, MAX, MAX-1, patterns); determinism: [0,S) + boundary + the structured alphabet; shuffle: [0,S) (rearrangement, every rearrangement of len<=6 reached, counts within [1/2,2] x mean) and the structured family = every odd m < 2^12 (thorough 2^14) shifted to every position + the structured alphabet (rearrangement, every rearrangement of len<=6 reached). \
+         serial structure: for every integer type and every value-set size n in {2..16, 32, 64, 128, 255, 256} (16-bit types: also 2^9..2^15 and 65535) every range form denoting n values (a..a+n and a..=a+n-1 for a in {0, MIN, 1}, ..n, ..=n-1), and for the 8- and 16-bit types the full-width forms (.., MIN..=MAX, ..=MAX): the stream of consecutive draws from every seed of the case has no period p <= max(n, tier base), searched in a stream of at least 3 periods (seeds per case: [0,S), S stated in period_seeds_per_case_plain_forms_long for plain next(0..len) on usize / the other cases / streams longer than the tier base, followed by the whole structured alphabet for the plain cases and its core for the other cases). \
          distinct_nontrivial = number of distinct integer (type,form,range) cases + float ranges whose draws produced at least two different in-range values (measured)",
     );
     run.cov("exhaustive", true);
-    run.cov("exhaustive_note", "exhaustive over the stated finite sets (all 8-bit ranges, the boundary sets for wider types, the float grid, seeds [0,S)); not over all u64 raw values or all seeds");
+    run.cov("exhaustive_note", "exhaustive over the stated finite sets (all 8-bit ranges, the boundary sets for wider types, the float grid, seeds [0,S) and the structured seed alphabets); not over all u64 raw values or all seeds");
     run.assume("`..b` and `..=b` are read as the library and its own tests read them, as 0..b and 0..=b: a non-positive (negative) end is an empty range and outside the domain; results are accepted anywhere inside the written range MIN..b, and only 0..b is required to be reachable");
     run.assume("reachability of a small range is witnessed on a stated finite raw alphabet (which contains 0..=2*len and ceil(k*2^64/len) for every k), not on all of u64");
     run.assume("for the periodicity clause a 'small range' is a range of any form with at most 2^16 values (which includes the full-width forms of the 8- and 16-bit types); 'not periodic' = no p <= max(value count, tier base) with s[i] == s[i+p] throughout a stream of at least 3p draws");
+    run.assume("near-equal frequency of the rearrangements is demanded over the dense seed interval only; the structured seed family is not a uniform sample of the seeds (half of its members have 32 or more trailing zero bits), so over it only reachability is demanded and the counts are recorded as a diagnostic (shuffle_structured_reach_and_counts_diagnostic)");
     run.finish(&confirm)
 }
